@@ -130,6 +130,29 @@ fn superset_obs(engine: &BTreeMap<String, Option<Vec<Vec<Val>>>>, model: &BTreeM
     None
 }
 
+/// True when every row the engine has beyond the acknowledged state `a` was part of an earlier
+/// acknowledged state of the same table (so it was removed by an acknowledged transaction).
+fn extra_rows_were_acknowledged_earlier(engine: &BTreeMap<String, Option<Vec<Vec<Val>>>>, a: &BTreeMap<String, Option<Vec<Vec<Val>>>>, marks: &[Mark]) -> bool {
+    let mut any_extra = false;
+    for (t, ev) in engine {
+        let Some(erows) = ev else { continue };
+        let arows: Vec<Vec<Val>> = a.get(t).cloned().flatten().unwrap_or_default();
+        let am = multiset(&arows);
+        let em = multiset(erows);
+        for (k, n) in &em {
+            let have = am.get(k).copied().unwrap_or(0);
+            if *n > have {
+                any_extra = true;
+                let earlier = marks.iter().any(|m| m.committed.tables.get(t).map(|tb| multiset(&tb.rows.values().cloned().collect::<Vec<_>>()).get(k).copied().unwrap_or(0) >= *n).unwrap_or(false));
+                if !earlier {
+                    return false;
+                }
+            }
+        }
+    }
+    any_extra
+}
+
 fn show_obs(o: &BTreeMap<String, Option<Vec<Vec<Val>>>>) -> String {
     o.iter().filter_map(|(t, r)| r.as_ref().map(|r| format!("{t}:{}", show_rows(r)))).collect::<Vec<_>>().join(" ")
 }
@@ -318,6 +341,9 @@ pub fn run_crash(c: &CrashCase) -> CrashReport {
                 if !ok_next {
                     if let Some(why) = superset_obs(&s, &a) {
                         push("c01.acknowledged_commit_lost", why, &mut failures);
+                    } else if !same_obs(&s, &a) && extra_rows_were_acknowledged_earlier(&s, &a, &marks[..=mark_i]) {
+                        // rows that an acknowledged transaction deleted (or replaced) are back
+                        push("c01.acknowledged_delete_lost", format!("reopened database has {} ; acknowledged state is {} (the extra rows existed in an earlier acknowledged state: an acknowledged DELETE/UPDATE was lost)", show_obs(&s), show_obs(&a)), &mut failures);
                     } else if !same_obs(&s, &a) {
                         // C02: something unacknowledged is visible
                         let clause = if acked.open_writers || inflight.map(|m| m.open_writers).unwrap_or(false) {
